@@ -181,6 +181,7 @@ func init() {
 		"verifRestoreStdio": noop,
 		"verifTempDir":    func(fr *frame, args []value) value { return "/verif-scratch-dir" },
 		"verifRemoveDir":  noop,
+		"verifNativeRepeat": func(fr *frame, args []value) value { return BV(1, 64) },
 		"verifFixedClock": func(fr *frame, args []value) value {
 			fr.m.fixedNow = uint64(fr.m.asInt(args[0], "fixed clock"))
 			return nil
